@@ -172,11 +172,79 @@ func ruleKind(c *Ctx) {
 	}
 	c.atLeast("per-native-function tables indexed by FuncInfo.Index", nIdx, 1)
 
-	// ATOMIC: setExecuteConfig runs initNativeFuncs only while p.nativeFuncs is nil, so the table must not
-	// be assigned before every check has passed - no error return may follow a store to it
-	if inf := c.ssaFunc("interp", "interp.initNativeFuncs"); inf != nil {
+	// the setup function, by role: the function of the package that makes the slice of per-native-function entries
+	var builder *ssa.Function
+	for _, fn := range c.srcFuncs("interp") {
+		fn := fn
+		allInstrs(fn, func(in ssa.Instruction) {
+			if ms, ok := in.(*ssa.MakeSlice); ok {
+				if sl, ok := ms.Type().Underlying().(*types.Slice); ok && isNamed(sl.Elem(), modPath+"/interp", "nativeFunc") {
+					builder = fn
+				}
+			}
+		})
+	}
+	if builder == nil {
+		builder = c.ssaFunc("interp", "interp.initNativeFuncs")
+	}
+	// ATOMIC: setExecuteConfig runs the setup only while p.nativeFuncs is nil, so the table must not
+	// be assigned before every check has passed - no error return may follow a store to it; when the setup
+	// function returns the table instead, its caller assigns it only on the path where the error is nil
+	if inf := builder; inf != nil {
 		stored := false
 		bad := token.NoPos
+		if !interpFieldStoredIn(inf, "nativeFuncs") {
+			for _, g := range c.srcFuncs("interp") {
+				g := g
+				allInstrs(g, func(in ssa.Instruction) {
+					name, val := interpFieldStore(in)
+					if name != "nativeFuncs" {
+						return
+					}
+					ex, ok := val.(*ssa.Extract)
+					if !ok {
+						return
+					}
+					call, ok := ex.Tuple.(*ssa.Call)
+					if !ok || call.Call.StaticCallee() != inf {
+						return
+					}
+					stored = true
+					// dominated by the nil edge of a test of the call's error
+					okEdge := false
+					for _, d := range g.Blocks {
+						if len(d.Instrs) == 0 {
+							continue
+						}
+						iff, ok := d.Instrs[len(d.Instrs)-1].(*ssa.If)
+						if !ok {
+							continue
+						}
+						bo, ok := iff.Cond.(*ssa.BinOp)
+						if !ok {
+							continue
+						}
+						isErrOfCall := func(v ssa.Value) bool {
+							e2, ok := v.(*ssa.Extract)
+							return ok && e2.Tuple == ex.Tuple && e2.Index != ex.Index
+						}
+						if !(isErrOfCall(bo.X) && isNilConst(bo.Y)) && !(isErrOfCall(bo.Y) && isNilConst(bo.X)) {
+							continue
+						}
+						nilEdge := 1
+						if bo.Op == token.EQL {
+							nilEdge = 0
+						}
+						if edgeDominates(d, nilEdge, in.Block()) || d.Succs[nilEdge] == in.Block() {
+							okEdge = true
+						}
+					}
+					if !okEdge {
+						bad = posOr(in.Pos(), g.Pos())
+					}
+				})
+			}
+		}
 		for _, b := range inf.Blocks {
 			for _, in := range b.Instrs {
 				if name, _ := interpFieldStore(in); name != "nativeFuncs" {
@@ -206,14 +274,21 @@ func ruleKind(c *Ctx) {
 	}
 
 	// INDEX: setup verifies the program's native functions against the sorted key list
-	ifd := c.funcDecl("interp", "interp.initNativeFuncs")
+	var ifd *ast.FuncDecl
+	if builder != nil {
+		ifd, _ = builder.Syntax().(*ast.FuncDecl)
+	}
 	if ifd == nil {
-		c.undecided("anchor:initNativeFuncs", token.NoPos, "initNativeFuncs not found")
+		c.undecided("anchor:initNativeFuncs", token.NoPos, "the function that builds the table of native functions (initNativeFuncs) was not found")
 	} else {
 		txt := nodeSrc(ifd.Body)
-		_ = txt
+		for _, g := range localCallees(builder) {
+			if gd, ok := g.Syntax().(*ast.FuncDecl); ok && gd.Body != nil {
+				txt += "\n" + nodeSrc(gd.Body)
+			}
+		}
 		// the table entry of a native function is stored at the position of its name in a sorted list
-		if inf := c.ssaFunc("interp", "interp.initNativeFuncs"); inf != nil {
+		if inf := builder; inf != nil {
 			n, good := 0, true
 			for _, fn := range append([]*ssa.Function{inf}, localCallees(inf)...) {
 				fn := fn
@@ -628,4 +703,15 @@ func loopBoundSlice(idx ssa.Value) ssa.Value {
 		}
 	}
 	return nil
+}
+
+// interpFieldStoredIn: fn stores the named field of the interpreter.
+func interpFieldStoredIn(fn *ssa.Function, field string) bool {
+	found := false
+	allInstrs(fn, func(in ssa.Instruction) {
+		if name, _ := interpFieldStore(in); name == field {
+			found = true
+		}
+	})
+	return found
 }
